@@ -52,18 +52,14 @@ def corpus(check, S):
     for i in range(n):
         g = pygen.Gen(check.rng, depth=check.rng.choice([2, 3, 3, 4]), loops=2.0)
         src = g.program()
-        try:
-            ast.parse(src)
-        except SyntaxError:
+        if not pygen.valid(src):
             continue
         progs.append(('gen%d' % i, src))
     # smaller programs on which the checked and the exact evaluator (exponential in the loop nesting depth) also run
     for i in range(80 if quick else 1200):
         g = pygen.Gen(check.rng, depth=check.rng.choice([2, 2, 3]), loops=1.5, scopes=check.rng.random() < 0.5)
         src = g.program()
-        try:
-            ast.parse(src)
-        except SyntaxError:
+        if not pygen.valid(src):
             continue
         if max((len(l) - len(l.lstrip())) // 4 for l in src.splitlines()) <= 3 and len(src.splitlines()) <= 45:
             progs.append(('val%d' % i, src))
@@ -80,6 +76,90 @@ def corpus(check, S):
             continue
         progs.append(('file:' + os.path.relpath(fn, common.REPO) if fn.startswith(common.REPO) else 'file:' + os.path.basename(fn), src))
     return progs
+
+
+PROJECT_FILES = {
+    'zq_pkg/__init__.py': '',
+    'zq_pkg/sub.py': 'class X:\n    attr = 1\n    def run(self):\n        self.state = 2\n        return self\n',
+    'zq_pkg/other.py': 'from .sub import X\nclass Y(X):\n    def extra(self):\n        pass\n',
+    'zq_helper.py': 'import zq_pkg.sub\nimport zq_pkg.other\nclass H(zq_pkg.sub.X):\n    def more(self):\n        self.v = 1\n'
+                    'def make():\n    return zq_pkg.sub.X()\ndef make2():\n    return zq_pkg.other.Y()\n',
+    'zq_factory.py': 'from zq_helper import make, H\nimport zq_pkg.sub\nobj = make()\nh = H()\nk = zq_pkg.sub.X\n',
+    'zq_star.py': 'from zq_helper import *\nfrom zq_factory import obj\n',
+}
+
+REQUESTS = [
+    ('assist', 'import zq_helper\nzq_helper.make().', (2, 17)),
+    ('location', 'import zq_helper\nzq_helper.make().run', (2, 20)),
+    ('assist', 'import zq_helper\nzq_helper.make2().', (2, 18)),
+    ('assist', 'import zq_factory\nzq_factory.obj.', (2, 15)),
+    ('assist', 'import zq_factory\nzq_factory.h.', (2, 13)),
+    ('location', 'import zq_factory\nzq_factory.k.attr', (2, 17)),
+    ('assist', 'from zq_star import *\nH().', (2, 4)),
+    ('location', 'from zq_star import *\nmake', (2, 4)),
+    ('assist', 'import zq_pkg.sub\nzq_pkg.sub.X.', (2, 13)),
+    ('assist', 'import zq_pkg.other\nzq_pkg.other.Y().', (2, 17)),
+    ('lint', 'from zq_star import *\nprint(H, make, obj, nothing)\n', None),
+    ('location', 'from zq_star import obj\nobj.state', (2, 9)),
+]
+
+
+def do_request(S, project, root, req, ctx):
+    kind, src, pos = req
+    fn = os.path.join(root, 'buffer.py')
+
+    def go():
+        if kind == 'assist':
+            p, props = S['assistant'].assist(project, src, pos, fn)
+            return [p, [x for x in props if not x.startswith('__')]]
+        if kind == 'location':
+            out = S['assistant'].location(project, src, pos, fn)
+            return json.loads(json.dumps(out).replace(root, 'ROOT'))
+        return [list(d[:4]) for d in S['linter'].lint(project, src, fn)]
+    try:
+        if ctx:
+            with project.check_changes():
+                return go()
+        return go()
+    except RecursionError:
+        return 'RecursionError'
+    except Exception as e:  # noqa
+        return 'raised ' + type(e).__name__
+
+
+def project_histories(check, S):
+    """request histories on ONE long-lived Project versus a fresh Project per request (no file is edited):
+    the evaluation memos (ImportedName._ref, _ctx_values, MultiValue._rvalues, cached module analyses)"""
+    quick = check.tier == 'quick'
+    root = '/tmp/verif-c04p-%d' % os.getpid()
+    for rel, content in PROJECT_FILES.items():
+        fn = os.path.join(root, rel)
+        os.makedirs(os.path.dirname(fn), exist_ok=True)
+        open(fn, 'w').write(content)
+    ref = [do_request(S, S['project'].Project([root]), root, r, False) for r in REQUESTS]
+    n = histories = 0
+    idx = list(range(len(REQUESTS)))
+    orders = [idx, idx[::-1], idx + idx]
+    for _ in range(25 if quick else 400):
+        o = [check.rng.choice(idx) for _ in range(check.rng.randint(2, 14))]
+        orders.append(o)
+    for o in orders:
+        for ctx in (False, True):
+            project = S['project'].Project([root])
+            histories += 1
+            for i in o:
+                a = do_request(S, project, root, REQUESTS[i], ctx)
+                n += 1
+                if a != ref[i]:
+                    check.fail('a request on a long-lived project answers differently depending on the requests made before',
+                               {'files': PROJECT_FILES, 'history': [list(REQUESTS[j]) for j in o], 'request': list(REQUESTS[i]),
+                                'inside_check_changes': ctx, 'answer_in_this_history': a, 'answer_of_a_fresh_project': ref[i]})
+                    break
+    import shutil
+    shutil.rmtree(root, ignore_errors=True)
+    check.extra['project_request_histories'] = {'histories': histories, 'requests': n, 'distinct_requests': len(REQUESTS),
+                                                'nonempty_reference_answers': sum(1 for r in ref if r and r != ['', []])}
+    return n
 
 
 def run(check):
@@ -184,6 +264,7 @@ def run(check):
                                      '%s order %s query %s: impl %r, model %r\n%s' % (label, o[:12], queries[i], a, m, src[:1500]))
     if dis == 0:
         check.oblige('correspondence query histories (same history on a real SourceScope and on the memoised model)', True)
+    n_queries += project_histories(check, S)
     check.cov['evaluations'] = n_queries
     check.cov['distinct_nontrivial'] = len(nontrivial)
     check.cov['rule'] = ('programs: corpus of past failures, generated loop-heavy programs (harness/pygen.py, PRNG from VERIF_SEED), '
